@@ -46,6 +46,9 @@ def _has_early_wrap(cfg, prefix):
     the right edge with a single free column, so the row ends one column early. The line may start
     at column 0 or after a template literal / prefix of up to 2 columns."""
     w = cfg.get("w", 80)
+    # templates in which every text starts a row (nothing in front of the message / prefix on its line): offset 0 only
+    tpls = {o.get("tpl") for o in prefix if o.get("tpl")}
+    offs = (0,) if tpls <= {"M", "PnM", "MnC", "MC", "C", "P"} else (0, 1, 2)
     for o in prefix:
         for key in ("m", "m0", "p0", "fm"):
             c = o.get(key)
@@ -54,7 +57,7 @@ def _has_early_wrap(cfg, prefix):
             line = []
             for g in c + [10]:
                 if g == 10:
-                    if any(_early_wrap_line(line, w, off) for off in (0, 1, 2)):
+                    if any(_early_wrap_line(line, w, off) for off in offs):
                         return True
                     line = []
                 else:
